@@ -474,18 +474,6 @@ func TestVerifC10Replay(t *testing.T) {
 					return r
 				}
 				r := run(false)
-				// XOR chunks cannot resume appending on reloaded bytes (KF-C10-1: the bstream write
-				// position is not restored). Such a behaviour is reported once under that finding and
-				// replayed again with the re-open done on the same chunk object instead.
-				if len(r.fails) > 0 && b[0].Enc == "xor" && fcBytesReopenThenAppend(b) {
-					for i := range r.sigs {
-						if r.sigs[i] != "infra" {
-							r.sigs[i] = "KF1:xor-resume-on-reloaded-bytes"
-						}
-					}
-					report(bi, r, map[string]any{"behaviour": b, "seed": seed, "stretch": stretch})
-					r = run(true)
-				}
 				report(bi, r, map[string]any{"behaviour": b, "seed": seed, "stretch": stretch})
 				if len(r.fails) > 0 {
 					break
